@@ -584,7 +584,8 @@ class VcfReader:
     @staticmethod
     def _extract_HP_phase(call: VariantRecordSample) -> Optional[VariantCallPhase]:
         hp = call.get("HP")
-        if hp is None or hp == (".",):
+        if hp is None or all(x is None or x == "." for x in hp):
+            # pysam returns (None,) for an empty field
             return None
         fields = [[int(x) for x in s.split("-")] for s in hp]
         for i in range(len(fields)):
@@ -1248,8 +1249,8 @@ class PhasedVcfWriter(VcfAugmenter):
                     )
                     self._set_phasing_tags(call, components[pos], phases[pos], haploid_component)
                 else:
-                    # Unphased
-                    call[self.tag] = None
+                    # Unphased. For the String tag HP, None would be written as an empty field
+                    call[self.tag] = "." if self.tag == "HP" else None
             prev_pos = pos
         return genotype_changes
 
